@@ -284,6 +284,13 @@ func vfC13Run(cfg vfC13Config, state string, build func(g *vfGW, topic string) (
 			}
 			viol = append(viol, vfXViolation{Key: "C13:unanswered:" + vfC13Site(raw, state), What: fmt.Sprintf("state %s: request %s got no reply echoing its id; frames: %v", state, vfTrunc(raw, 300), got)})
 		}
+		// the session itself is still served: whatever the request was, the next {sub} on the same
+		// connection gets an answer (sub / leave requests share the session's in-flight slot)
+		if !c.ended && !c.closed {
+			if code, ffr := c.Req(`{"sub":{"id":"$ID","topic":"fnd"}}`); code == 0 && !c.ended {
+				viol = append(viol, vfXViolation{Key: "C13:session-stuck-after:" + vfC13Site(raw, state), What: fmt.Sprintf("state %s: after %s the same session's next {sub} was never answered (frames %v)", state, vfTrunc(raw, 300), vfFramesStrings(ffr))})
+			}
+		}
 		// bystander still served
 		_, bfr := g.cl["x1"].Req(`{"get":{"id":"$ID","topic":"%s","what":"desc"}}`, g.grp)
 		served := false
